@@ -35,3 +35,7 @@ package web
 // C19: a generated password is a per-process secret: the random bytes are
 // read before they are encoded into the password (never a constant).
 //@ before New rand.Read hex.Encode props=C19
+
+// C19: the loopback exemption is decided from the connection's remote
+// address: nothing in the repository rewrites it (e.g. from a request header).
+//@ frozen http.Request.RemoteAddr props=C19
